@@ -213,6 +213,11 @@ fn datagram(ctx: &Ctx, family: &str, idx: u64) -> Vec<u8> {
                 q.qtype = *g.r.pick(&[1u16, 28, 33, 16, 12, 255]);
                 p.qs.push(q);
             }
+            if g.r.chance(1, 3) {
+                let udp = *g.r.pick(&[0u16, 1, 11, 12, 13, 40, 100, 511, 512, 1232, 4096, 65535]);
+                let opts = if g.r.bool() { vec![] } else { let n = g.r.usize(0, 12); vec![(g.r.int(16) as u16, g.r.bytes(n))] };
+                p.edns = Some(EdnsM { udp, version: *g.r.pick(&[0u8, 0, 1, 255]), opts });
+            }
             encode(&p.to_wire(0), Plan::Canonical).bytes
         }
         "valid" => {
@@ -231,6 +236,11 @@ fn datagram(ctx: &Ctx, family: &str, idx: u64) -> Vec<u8> {
                 let mut p = Packet::new_query(0);
                 p.questions.push(Question::new(Name::new(SERVICE).unwrap(), TYPE::PTR.into(), CLASS::IN.into(), r.bool()));
                 p.questions.push(Question::new(Name::new(SERVICE).unwrap(), TYPE::SRV.into(), CLASS::IN.into(), false));
+                // one query in three comes from an EDNS-speaking stack: any payload size can be advertised, sensible or not
+                if r.chance(1, 3) {
+                    let udp = *r.pick(&[0u16, 1, 11, 12, 13, 40, 100, 511, 512, 1232, 4096, 65535]);
+                    *p.opt_mut() = Some(simple_dns::rdata::OPT { opt_codes: vec![], udp_packet_size: udp, version: if r.chance(1, 4) { r.u8() } else { 0 } });
+                }
                 p.build_bytes_vec_compressed().unwrap()
             }
         }
@@ -571,6 +581,33 @@ fn level2(ctx: &mut Ctx) {
             }
         });
     }
+    // liveness of the application's runtime: a task that only sleeps 25 ms and counts. Everything the harness itself runs on this
+    // runtime awaits sockets or timers, so a counter that stands still for 20 s means the library's tasks occupy both workers
+    // without ever yielding: the handling of some datagram does not complete
+    let beat = Arc::new(std::sync::atomic::AtomicU64::new(0));
+    {
+        let b = beat.clone();
+        rt.spawn(async move {
+            loop {
+                tokio::time::sleep(Duration::from_millis(25)).await;
+                b.fetch_add(1, Ordering::Relaxed);
+            }
+        });
+    }
+    let rt_alive = {
+        let beat = beat.clone();
+        move |wait: Duration| -> bool {
+            let (b0, t) = (beat.load(Ordering::Relaxed), Instant::now());
+            while t.elapsed() < wait {
+                if beat.load(Ordering::Relaxed) != b0 {
+                    return true;
+                }
+                std::thread::sleep(Duration::from_millis(20));
+            }
+            false
+        }
+    };
+    let mut rt_starved = false;
     let markers = vec![
         Marker { what: "sync SimpleMdnsResponder", name: rname.clone(), qtype: TYPE::A },
         Marker { what: "sync ServiceDiscovery", name: svc_a.clone(), qtype: TYPE::PTR },
@@ -748,6 +785,13 @@ fn level2(ctx: &mut Ctx) {
                 }
             }
         }
+        if !violated && !rt_alive(Duration::from_secs(10)) && !rt_alive(Duration::from_secs(10)) {
+            ctx.violation("loop-keeps-running", "tokio-runtime-starved-by-service-tasks",
+                "the heartbeat task of the application's tokio runtime (2 workers) has not run for 20 s: tasks of the tokio services occupy every worker without yielding, the handling of a datagram does not complete".into(),
+                json!({"family": "level2", "idx": idx, "last_batch": batch_hex}));
+            violated = true;
+            rt_starved = true;
+        }
         if monitor::foreign_panic_count() > before {
             let fps = monitor::take_foreign_panics();
             for fp in &fps {
@@ -758,10 +802,11 @@ fn level2(ctx: &mut Ctx) {
             }
             violated = true;
         }
-        if ctx.time_up() {
+        if ctx.time_up() || rt_starved {
             break;
         }
     }
+    ctx.add("level2_tokio_runtime_heartbeats", beat.load(Ordering::Relaxed));
     // ---- the application thread: did its last call come back? --------------------------------------------------
     // (stopped here, before the resolver threads are joined: its announcements are a steady stream of datagrams, and a
     // one-shot resolver only looks at its deadline when the socket has been silent for 100 ms)
@@ -943,8 +988,16 @@ fn level2(ctx: &mut Ctx) {
             ctx.notes.push("level 2: the sync resolver's last query had not returned 20 s after the traffic stopped (its deadline is only evaluated when the socket is silent; other traffic on the group?); its thread is left behind".into());
         }
     }
-    if let Ok(q) = rt.block_on(async { tokio::time::timeout(Duration::from_secs(3), async_resolver).await }) {
-        ctx.add("level2_async_resolver_queries", q.unwrap_or(0));
+    if !rt_starved && !rt_alive(Duration::from_secs(10)) && !rt_alive(Duration::from_secs(10)) {
+        ctx.violation("loop-keeps-running", "tokio-runtime-starved-by-service-tasks",
+            "the heartbeat task of the application's tokio runtime (2 workers) has not run for 20 s after the traffic: tasks of the tokio services occupy every worker without yielding".into(),
+            json!({"family": "level2", "idx": idx}));
+        rt_starved = true;
+    }
+    if !rt_starved {
+        if let Ok(q) = rt.block_on(async { tokio::time::timeout(Duration::from_secs(3), async_resolver).await }) {
+            ctx.add("level2_async_resolver_queries", q.unwrap_or(0));
+        }
     }
     if inconclusive_markers > 0 {
         ctx.add("level2_marker_replies_missing_without_panic", inconclusive_markers);
